@@ -158,11 +158,20 @@ def run(cx):
                                    'answers-not-truncated': r'^!try\(message::count_was_truncated\(EmitAndCount::emit\(arg3,arg8\)\)\)@Continue\.0\.1$',
                                    'authorities-not-truncated': r'^!try\(message::count_was_truncated\(EmitAndCount::emit\(arg4,arg8\)\)\)@Continue\.0\.1$'}, fn=f)
         for s in clear:
-            cx.check('C03.S1', 'additional_count' in s.term, f.path, s.key(), 'TC-takes-additional-flag', s.term, s.loc)
+            cx.check('C03.S1', bool(re.search(r'var\(\w+\)\.1$', s.term)), f.path, s.key(), 'TC-takes-additional-flag', s.term, s.loc)
         cx.check('C03.S1', len(clear) == 1, f.path, 'sites', 'TC-store-present', f'{len(tc)} stores, {len(clear)} non-true feeds')
         # OPT and TSIG truncation flags are OR-ed into the additional flag
         ors = cx.assigns(f, r'^bitor\(', place=None)
         cx.check('C03.S1', len(ors) >= 2, f.path, 'sites', 'OPT-and-TSIG-flags-merged', f'{len(ors)} |= sites')
+        # ... and they are merged BEFORE the TC bit is computed from the additional flag: a flag merged later never reaches the header
+        for c_ in clear[:1]:
+            after = cx.reachable_from(f, [c_.bb])
+            for o in ors:
+                late = o.bb in after and o.bb != c_.bb
+                cx.check('C03.S1', not late, f.path, o.key(), 'truncation-flag-merged-before-TC-is-computed',
+                         'the OPT/TSIG record was dropped after the TC bit had been computed: the merged flag never reaches the header', o.loc)
+            for em in cx.calls(f, r'BinEncoder<\'\w+>::emit_iter$|BinEncoder::emit_iter$|EmitAndCount::emit$'):
+                cx.check('C03.S1', not (em.bb in after and em.bb != c_.bb), f.path, em.key(), 'nothing-emitted-after-TC-is-computed', em.term[:100], em.loc)
     c = cx.fn('C03.S1', 'hickory_proto::op::message::count_was_truncated')
     if c:
         tr = cx.returns(c, r'^Result::Ok\(\(.*,true\)\)$|^Result::Ok\(\(.*phi\(false\|true\).*\)\)$|^Result::Ok\(')
